@@ -30,7 +30,7 @@ ASSUMPTIONS = ["bounded liveness: once the last job is enqueued and no fault is 
                "10 s + 2 s x jobs (+ injected stall time) of virtual time",
                "no pre-emption inside semantiva.core / pipeline execution (a job run is one scheduling step)"]
 REQUIRED_PROBES = ["failing_job", "slow_job", "multi_worker", "late_worker", "batch_ge_10", "fire_and_forget_job_mixed_in", "two_failing_jobs",
-                   "same_yaml_path_rewritten", "failing_job_with_two_argument_exception", "job_enqueued_from_done_callback", "worker_stopped_and_replaced_mid_batch", "worker_with_bounded_pool_executor", "job_context_with_protocol_like_key", "job_whose_configuration_cannot_be_loaded", "pending_future_cancelled_by_caller"]
+                   "same_yaml_path_rewritten", "failing_job_with_two_argument_exception", "job_enqueued_from_done_callback", "worker_stopped_and_replaced_mid_batch", "worker_with_bounded_pool_executor", "job_context_with_protocol_like_key", "job_whose_configuration_cannot_be_loaded", "pending_future_cancelled_by_caller", "follow_up_job_fed_with_returned_context"]
 CONFIG = {
     "quick": {"runs": 2500, "budget_s": 240, "timeout_s": 120, "per_fork": 4},
     "thorough": {"runs": 150000, "budget_s": 1600, "timeout_s": 180, "per_fork": 6},
@@ -87,7 +87,8 @@ def generate(rng: random.Random, tier: str, seed: int) -> dict:
     chained = None
     if rng.random() < 0.15:
         c1 = gen.gen_pipeline(rng, max_nodes=3, allow_file_sink=False)
-        chained = {"nodes": c1["nodes"], "context": c1["context"], "init_data": c1["init_data"]}     # enqueued from a done-callback
+        chained = {"nodes": c1["nodes"], "context": c1["context"], "init_data": c1["init_data"],     # enqueued from a done-callback
+                   "feed_result": rng.random() < 0.5}
     yaml_pair = None
     if rng.random() < 0.2:
         a1 = gen.gen_pipeline(rng, max_nodes=3, allow_file_sink=False)
@@ -295,8 +296,17 @@ def execute(sc: dict, seed: int) -> dict:
                         # a follow-up job is enqueued from the first job's done-callback (runs on whichever task completes it)
                         def _chain(_f, cj=sc["chained"]):
                             d2 = None if cj["init_data"] is None else FloatDataType(float(cj["init_data"]))
+                            cctx = copy.deepcopy(cj["context"])
+                            if cj.get("feed_result") and not _f.cancelled() and _f.exception() is None:
+                                # stage 2 of a two-stage workflow: the follow-up job receives the context the first job RETURNED
+                                # (which carries that job's id annotation) plus its own keys
+                                merged = ctx_snapshot(_f.result()[1])
+                                info["chain_input_ctx"] = dict(merged)
+                                merged.update(cctx)
+                                cctx = merged
+                                stats["probe.follow_up_job_fed_with_returned_context"] = 1
                             chain_futures.append(orch.enqueue(copy.deepcopy(cj["nodes"]), data=d2,
-                                                              context=ContextType(copy.deepcopy(cj["context"])), return_future=True))
+                                                              context=ContextType(cctx), return_future=True))
                         futures[0].add_done_callback(_chain)
                 info["t_last_enqueue"] = sched.now
                 while True:
@@ -393,6 +403,11 @@ def execute(sc: dict, seed: int) -> dict:
                 data, ctx = chain_futures[0].result()
                 got_ctx = ctx_snapshot(ctx)
                 got_ctx.pop("job_id", None)
+                if info.get("chain_input_ctx") is not None:
+                    # reference: the follow-up pipeline run directly on the merged context (minus the annotation)
+                    fed = {k: v for k, v in info["chain_input_ctx"].items() if k != "job_id"}
+                    fed.update(sc["chained"]["context"])
+                    chain_expected = _expected(dict(sc["chained"], context=fed), w)
                 if harness.canon(_data_repr(data)) != harness.canon(chain_expected["data"]) or harness.canon(got_ctx) != harness.canon(chain_expected["context"]):
                     viols.append(oracles.V("result", "chained_job_wrong_result", f"got {_data_repr(data)} {got_ctx}"))
         if outcome == "completed" and pair_futures:
